@@ -199,7 +199,9 @@ func (m *LinearBlockMetadata) Validate() error {
 
 	if m.secondVectorMode == SecondVectorModeDoubleStack {
 		var nullItemSecondCount int
-		for suballocIndex, suballoc := range secondVector {
+		// The upper stack is stored top-first (descending offsets), walk it from the lowest offset up
+		for suballocIndex := len(secondVector) - 1; suballocIndex >= 0; suballocIndex-- {
+			suballoc := secondVector[suballocIndex]
 			isFree := suballoc.Type == 0
 
 			if suballoc.Offset < offset {
@@ -212,7 +214,7 @@ func (m *LinearBlockMetadata) Validate() error {
 				nullItemSecondCount++
 			}
 
-			offset = suballoc.Offset - suballoc.Size - debugMargin
+			offset = suballoc.Offset + suballoc.Size + debugMargin
 		}
 
 		if nullItemSecondCount != m.secondNullItemsCount {
